@@ -68,7 +68,9 @@ CLAIMED["C04"] = dict(
     text="Proof over a literal integer-time Gallina model (Lib/Sched.v) of SimTimeCondition/TimeOfDayCondition.evaluate, the two stable "
          "sorts, the presolve/rule loop and the outer loop of run_sim: AT TIME t is true exactly in the step containing t with backtrack "
          "cur-t and never twice; >, >=, < are exact; <= is exact unless the threshold was jumped over (refuted otherwise, witness); the "
-         "once-only clock condition is exact; the last-applied action wins and actions are applied in ascending priority. The model also "
+         "once-only clock condition is exact; the last-applied action wins and actions are applied in ascending priority; and for the whole run of one "
+         "AT TIME control (any instant, hydraulic/rule grids, duration, priority) a step is solved at exactly the instant -- off both grids too -- with "
+         "the commanded status, untouched before, kept after (induction through the presolve loop and over the steps). The model also "
          "proves (by evaluation) what the CURRENT code does wrong: daily clock-time controls act at 2x the threshold, 'before' clock "
          "conditions are never true, rules are evaluated at t=0 -- recorded as known findings. Tie decided inside coqc: the (time, status) "
          "trace of the real simulator equals Sched.run for every generated configuration of controls and rules (exact).",
@@ -262,7 +264,9 @@ CLAIMED["C10"] = dict(
     technique="Coq proof (induction over iterated steps with fuel monotonicity) + exact trace correspondence + behavioural differential")
 
 CLAIMED["C06"] = dict(
-    text="Proof: for a cylindrical tank the head update of update_tank_heads changes the stored volume by exactly (net inflow) x (elapsed "
+    text="Proof (whole run): with full steps above a limit, the crossing step cut by the whole-second backtrack and no net outflow (inflow) once "
+         "the tank's links are closed (assumption on the hydraulics), the level never leaves [min - qmax/A, max + qmax/A] (induction over the reachable "
+         "levels, C06_min/max_level_invariant). Per step: for a cylindrical tank the head update of update_tank_heads changes the stored volume by exactly (net inflow) x (elapsed "
          "time), over one and several steps; the whole-second backtrack floor((cur - thr) A / q) of TankLevelCondition puts the level on "
          "the crossing side of the threshold with an overshoot strictly below one second of the tank's flow, rising and falling (Flocq "
          "Zfloor) -- this is what keeps levels within [min, max] up to about two seconds of flow, since the min/max closures are "
